@@ -143,7 +143,7 @@ func TestC19_StateMachine(t *testing.T) {
 		defer drawSched(rt).install()() // seeded yields at the library's schedule points
 		px, err := netfx.NewProxy(srv.Addr)
 		if err != nil {
-			rt.Fatalf("infrastructure: %v", err)
+			ev.InfraSkip(rt, c19, "%v", err)
 		}
 		defer px.Close()
 		opts := mpx.Default()
@@ -359,7 +359,7 @@ func TestC19_StateMachine(t *testing.T) {
 				step("server reachable")
 				if !up {
 					if err := px.StartListening(); err != nil {
-						rt.Fatalf("infrastructure: %v", err)
+						ev.InfraSkip(rt, c19, "%v", err)
 					}
 					killRecover = true
 				}
